@@ -419,9 +419,33 @@ def run(ctx):
     def restore(objs):
         mm.terrain = objs          # re-stamps the same objects; contents never change in these histories
 
+    def probe_rejected(hist):
+        """a REJECTED terrain assignment built from the manager's own tile objects (a crop that is one tile short) leaves
+        the manager - tile indices included - as it was"""
+        a, before = snapshot()
+        if a < 2:
+            return
+        objs = list(mm.terrain)
+        for new, tag in ((objs[1:], "drop-first"), (objs[a:] + objs[:1], "rotated-crop")):
+            def assign():
+                mm.terrain = new
+            st, e = common.outcome(assign)
+            h2 = hist + [("rejected-" + tag, len(new))]
+            R.case(key=("rejected", a, tag) + tuple(map(tuple, hist)), nontrivial=True, tags=("terrain:rejected-own-tiles",))
+            if st == "ok":
+                violation({"op": "terrain", "class": "non-square-accepted"}, f"terrain setter accepted {len(new)} of its own tiles", {"op": "history", "history": h2})
+                restore(objs)
+                continue
+            check_geometry(h2)
+            a2, after = snapshot()
+            if a2 != a or after != before or any(u is not v for u, v in zip(mm.terrain, objs)):
+                violation({"op": "terrain", "class": "rejected-assignment-changed-state"},
+                          f"a rejected terrain assignment ({tag}, {len(new)} tiles) changed the {a}x{a} map ({h2})", {"op": "history", "history": h2})
+
     def dfs(hist, depth, start):
         if depth <= 1:
             sweep_gets(hist)
+            probe_rejected(hist)
             s = mm.map_size
             if depth == 1 and s <= 7 and start in rect_starts:
                 for y1 in range(s):
